@@ -27,8 +27,8 @@ BAD = {
     '$TIMESTEP': ['abc', '1,5', '0.01s', '--1', '1_', 'e5'],
     'TIMETICKS': ['tick', '2 00', '0x10'],
     '$BTIM': ['12:00', '25:00:00', '12:61:00', '12:00:61', '12:00:00:xx', '12:00:00:60', '12:00:00:-1', 'noon', '1:2:3:4:5', '12:00:00.', '12.00.00',
-              '12:00:00:1e9', '12:00:00:nan', '12:00:00:inf', ':::', '12:00:0a'],
-    '$ETIM': ['late', '24:00:00', '12:00:00:99', '12:00'],
+              '12:00:00:1e9', '12:00:00:nan', '12:00:00:inf', ':::', '12:00:0a', '16.51:46:10', '12.5:30:10', '16:51.5:46', '1.5:00:00', '23.59:59:59'],
+    '$ETIM': ['late', '24:00:00', '12:00:00:99', '12:00', '12.5:30:10', '16:51.5:46'],
     '$DATE': ['2015/10/02', '31-FEB-2015', '02-OKT-2015', '02-10-2015', 'OCT-02-2015', '00-JAN-2015', '32-JAN-2015', '2-oct-015', 'x'],
     'V': ['high', '4 50', '1,5'], 'G': ['g', '2x'],
 }
